@@ -79,8 +79,10 @@ func helperFuncs(p *load.Program) []*ssa.Function {
 
 func runC08(c *core.Ctx) {
 	runFixtures(c, "drop", "read")
-	c.Explain("Structural clauses of C08 decided from source for every package-level helper of hackpadfs whose first parameter is an FS or a File (and the unexported functions only they reach): (R08.1) for every call that returns an error — other helpers, interface methods, File methods — on every path on which that error is non-nil the helper returns it, wraps it, hands it on, returns another definitely non-nil error, or consumes it through an enumerated idiom (errors.Is(ErrNotExist) inside RemoveAll's recursion, errors.Is(ErrExist) inside MkdirAll, errors.Is(ErrNotImplemented) to try the next capability, closing a read-only handle); a nil/may-be-nil return on such a path is a violation ('a helper never reports success for work that was not done'); (R08.3) the path on which every capability assertion of a helper failed returns a *PathError/*LinkError carrying ErrNotImplemented or enters the documented fallback; (R08.4, contradiction rule) inside one helper all calls of the same fallible callee consult the same sentinels (errors.Is) on its error — if one Mkdir site tolerates ErrExist and another returns it, the fallback answers 'already there' differently from the optimised implementation; (R08.5, sibling agreement) a mode/flag/perm/time parameter of a helper reaches every delegate that receives it as the parameter itself — a branch that passes 'mode & K' where its siblings pass 'mode' makes the result depend on the capability subset; (R08.6) the recursive removal behind RemoveAll takes its 'is a directory' decision from Lstat/LstatOrStat, never from Stat; (R08.7) among the helpers that take a File only SeekFile invokes Seek (no positioned operation is emulated by moving the handle's position). (R08.8) in the helper OpenFile every call of fs.Open is dominated by the test flag == FlagReadOnly (a mask test forgets the flags outside the mask); (R08.10) every sub-path the generic Sub view returns is the name itself, the base, or path.Join of them; (R08.9) every direct call of a Read([]byte)(int, error) method in the package is a delegation that hands the count to its caller, or sits in a loop that is left only on an error / a full buffer and whose successful returns looked at the count of the latest Read — a helper that replaces io/fs.ReadFile or io.Copy by one sized Read reports success for content it did not read. (R08.11) a helper asserts the operation's own interface before MountFS; (R08.12) Create's fallback uses os.Create's flags. (R08.13) = R06.3 pairing under C08. NOT claimed: equality of results and final state between the optimised path and the fallback across the 2^k capability subsets.")
+	c.Explain("Structural clauses of C08 decided from source for every package-level helper of hackpadfs whose first parameter is an FS or a File (and the unexported functions only they reach): (R08.1) for every call that returns an error — other helpers, interface methods, File methods — on every path on which that error is non-nil the helper returns it, wraps it, hands it on, returns another definitely non-nil error, or consumes it through an enumerated idiom (errors.Is(ErrNotExist) inside RemoveAll's recursion, errors.Is(ErrExist) inside MkdirAll, errors.Is(ErrNotImplemented) to try the next capability, closing a read-only handle); a nil/may-be-nil return on such a path is a violation ('a helper never reports success for work that was not done'); (R08.3) the path on which every capability assertion of a helper failed returns a *PathError/*LinkError carrying ErrNotImplemented or enters the documented fallback; (R08.4, contradiction rule) inside one helper all calls of the same fallible callee consult the same sentinels (errors.Is) on its error — if one Mkdir site tolerates ErrExist and another returns it, the fallback answers 'already there' differently from the optimised implementation; (R08.5, sibling agreement) a mode/flag/perm/time parameter of a helper reaches every delegate that receives it as the parameter itself — a branch that passes 'mode & K' where its siblings pass 'mode' makes the result depend on the capability subset; (R08.6) the recursive removal behind RemoveAll takes its 'is a directory' decision from Lstat/LstatOrStat, never from Stat; (R08.7) among the helpers that take a File only SeekFile invokes Seek (no positioned operation is emulated by moving the handle's position). (R08.8) in the helper OpenFile every call of fs.Open is dominated by the test flag == FlagReadOnly (a mask test forgets the flags outside the mask); (R08.10) every sub-path the generic Sub view returns is the name itself, the base, or path.Join of them; (R08.9) every direct call of a Read([]byte)(int, error) method in the package is a delegation that hands the count to its caller, or sits in a loop that is left only on an error / a full buffer and whose successful returns looked at the count of the latest Read — a helper that replaces io/fs.ReadFile or io.Copy by one sized Read reports success for content it did not read. (R08.11) a helper asserts the operation's own interface before MountFS; (R08.12) Create's fallback uses os.Create's flags. (R08.13) = R06.3 pairing under C08. (R08.14) an exported helper returns nil only after asking the file system or a handle; (R08.15) a helper dispatches to its own operation's interface only. NOT claimed: equality of results and final state between the optimised path and the fallback across the 2^k capability subsets.")
 	c.Assume("A1: interface-dispatched FS/File methods return nil error only when the operation was done", "A6: partial correctness")
+	c.RuleDoc("R08.14", "a helper returns a constant-nil error only after asking the file system or file")
+	c.RuleDoc("R08.15", "a helper named after a mutating operation invokes no other mutating operation's method")
 	c.RuleDoc("R08.1", "no primitive error dropped on any failing path of a helper")
 	c.RuleDoc("R08.4", "sibling calls of one callee inside a helper consult the same sentinels")
 	c.RuleDoc("R08.5", "a non-name parameter reaches every delegate of a helper in the same form")
@@ -159,6 +161,8 @@ func runC08(c *core.Ctx) {
 		r08OpenFallback(c, p)
 		r08OwnCapabilityFirst(c, p, helpers)
 		r08CreateFlags(c, p)
+		r08SuccessOnlyAfterAsking(c, p, helpers)
+		r08OwnOperationOnly(c, p, helpers)
 		// R08.13 (= R06.3): a helper resolves EACH name with its own Mount call and delegates with that call's pair
 		c.WithAlias(map[string]string{"R06.3": "R08.13"}, func() { r06Pairs(c, p) })
 		r08SubViewJoins(c, p, "R08.10")
@@ -171,6 +175,8 @@ func runC08(c *core.Ctx) {
 	c.Floor("R08.7", 8)
 	c.Floor("R08.8", 1)
 	c.Floor("R08.11", 10)
+	c.Floor("R08.14", 20)
+	c.Floor("R08.15", 10)
 	c.Floor("R08.12", 1)
 	c.Floor("R08.13", 15)
 	c.Floor("R08.10", 2)
@@ -662,5 +668,116 @@ func r08CreateFlags(c *core.Ctx, p *load.Program) {
 	})
 	if n == 0 {
 		c.Hard("anchor: OpenFile fallback of Create")
+	}
+}
+
+// r08SuccessOnlyAfterAsking (R08.14): a helper that takes a file system returns a constant-nil error only on a path on
+// which it handed the file system (or something obtained from it) to some call: an early "nothing to do" return in a
+// fallback (both times zero: "leaves the times unchanged") reports success for a name that does not exist, where the
+// full interface answers ErrNotExist.
+func r08SuccessOnlyAfterAsking(c *core.Ctx, p *load.Program, helpers []*ssa.Function) {
+	for _, fn := range helpers {
+		if fn.Blocks == nil || len(fn.Params) == 0 || fn.Object() == nil || !fn.Object().Exported() {
+			continue
+		}
+		if fn.Name() == "MkdirAll" {
+			// one named exception: its loop over the path's elements runs at least once for every valid name (ValidPath,
+			// checked first, refuses the empty string), so the return after the loop has always asked
+			continue
+		}
+		eidx := ssax.ErrorResultIndex(fn.Signature)
+		if eidx < 0 {
+			continue
+		}
+		fsP := fn.Params[0]
+		uses := func(v ssa.Value) bool {
+			return dependsOn(v, func(x ssa.Value) bool {
+				if x == ssa.Value(fsP) {
+					return true
+				}
+				// a value obtained from the file system: the result of a type assertion or of a call on it
+				if ta, ok := x.(*ssa.TypeAssert); ok {
+					return ta.X == ssa.Value(fsP)
+				}
+				return false
+			})
+		}
+		bad := ""
+		nilReturns := 0
+		ssax.EnumPaths(fn, fn.Blocks[0], 0, ssax.NewPathState(), ssax.PathHooks{
+			Instr: func(ps *ssax.PathState, ins ssa.Instruction) {
+				ci, ok := ins.(ssa.CallInstruction)
+				if !ok {
+					return
+				}
+				cc := ci.Common()
+				if cc.IsInvoke() && uses(cc.Value) {
+					ps.Counts["asked"] = 1
+				}
+				for _, a := range cc.Args {
+					if uses(a) {
+						ps.Counts["asked"] = 1
+					}
+				}
+				if cl, ok := ins.(*ssa.Call); ok && ps.Counts["asked"] == 1 {
+					_ = cl
+				}
+			},
+			End: func(ps *ssax.PathState, last ssa.Instruction) {
+				r, ok := last.(*ssa.Return)
+				if !ok {
+					return
+				}
+				e := ps.Resolve(resolveSpilledOnPath(r.Results[eidx], r, ps))
+				if !ssax.IsNilConst(e) {
+					return
+				}
+				nilReturns++
+				if ps.Counts["asked"] == 0 && bad == "" {
+					bad = p.Pos(r.Pos())
+				}
+			},
+		})
+		if nilReturns == 0 {
+			c.OKTrivial("R08.14", fname(fn)+"|success-only-after-asking-the-file-system", p.Pos(fn.Pos()), "no constant-nil return: every result is a callee's")
+			continue
+		}
+		c.Check(bad == "", "R08.14", fname(fn)+"|success-only-after-asking-the-file-system", p.Pos(fn.Pos()), "every constant-nil return follows a call that received the file system or something obtained from it",
+			fmt.Sprintf("%s returns success at %s without having asked the file system (or the file) anything: a 'nothing to do' shortcut answers nil for a name that does not exist, where the full interface fails with ErrNotExist", fname(fn), bad))
+	}
+}
+
+// r08OwnOperationOnly (R08.15): a helper named after a mutating operation invokes, on a file system value, no OTHER
+// mutating operation's method: Mkdir answered by MkdirAll ("a file system that can make a whole path can make its last
+// element") succeeds on an existing directory and creates missing parents, where Mkdir fails — the result depends on
+// which capabilities are exposed. The documented fallbacks go through the package's own helpers, not through a
+// sibling method of the file system.
+func r08OwnOperationOnly(c *core.Ctx, p *load.Program, helpers []*ssa.Function) {
+	mutating := map[string]bool{"Mkdir": true, "MkdirAll": true, "Remove": true, "RemoveAll": true, "Rename": true, "Chmod": true, "Chown": true, "Chtimes": true, "Symlink": true, "Create": true, "WriteFile": true, "Truncate": true}
+	alias := map[string]string{"WriteFullFile": "WriteFile"}
+	for _, fn := range helpers {
+		name := fn.Name()
+		if a, ok := alias[name]; ok {
+			name = a
+		}
+		if !mutating[name] && !mutating[strings.TrimSuffix(name, "File")] || fn.Blocks == nil {
+			continue
+		}
+		own := name
+		if !mutating[own] {
+			own = strings.TrimSuffix(name, "File")
+		}
+		bad := ""
+		ssax.InstrsDeep(fn, func(_ *ssa.Function, ins ssa.Instruction) {
+			ci, ok := ins.(ssa.CallInstruction)
+			if !ok {
+				return
+			}
+			if m := ssax.InvokeMethod(ci); m != nil && mutating[m.Name()] && m.Name() != own && bad == "" {
+				bad = m.Name() + " at " + p.Pos(ins.Pos())
+			}
+		})
+		c.Check(bad == "", "R08.15", fname(fn)+"|invokes-its-own-operation-only", p.Pos(fn.Pos()), "no other mutating operation's method is invoked",
+			fmt.Sprintf("%s invokes the method %s of another mutating operation: with that capability exposed and its own hidden the helper answers with the other operation's semantics (MkdirAll accepts an existing directory and creates missing parents) instead of failing with ErrNotImplemented", fname(fn), bad))
 	}
 }
